@@ -244,3 +244,78 @@ def falsy_default(model, payload):
     if r.get("reproduced"):
         return r
     return _distinct_bindings_sweep() or r
+
+
+def call_site_histories(model, payload):
+    """Keep calls written in source, analysed one after the other in ONE process: the signature of each call site is that
+    of its own binding -- the one a fresh process computes for it -- whatever call sites were analysed before
+    (def f(a, b=0, c="z"): sites f(1) / f(1, b=0) / f(1, 0) share a binding, f(1, b=5), f(1, c="y"), f(1, 5, "y") do not),
+    in every order of analysis of 3 of the 7 sites."""
+    import itertools
+    import json
+    import subprocess
+    import sys
+    import tempfile
+    import shutil
+
+    sites = [("s_default", "f, 1"), ("s_kw_default", "f, 1, b=0"), ("s_pos_default", "f, 1, 0"), ("s_kw5", "f, 1, b=5"), ("s_c", 'f, 1, c="y"'), ("s_pos_all", 'f, 1, 5, "y"'), ("s_kw_all", 'f, 1, c="y", b=5')]
+    binding = {"s_default": (1, 0, "z"), "s_kw_default": (1, 0, "z"), "s_pos_default": (1, 0, "z"), "s_kw5": (1, 5, "z"), "s_c": (1, 0, "y"), "s_pos_all": (1, 5, "y"), "s_kw_all": (1, 5, "y")}
+    mod = ["import dds", "", "def f(a, b=0, c=\"z\"):", "    return [\"f\", a, b, c]", ""]
+    for n, a in sites:
+        mod += ["def %s():" % n, "    return dds.keep(\"/h/%s\", %s)" % (n, a), ""]
+    runner = r"""
+import sys, json
+sys.path.insert(0, sys.argv[1])
+import dds, dds._api as api
+import hsites
+dds.accept_module(hsites)
+dds.set_store("memory")
+out = {}
+for order in json.loads(sys.argv[2]):
+    dds.set_store("memory")
+    res = []
+    for n in order:
+        v = dds.eval(getattr(hsites, n))
+        res.append((n, api._store().fetch_paths(["/h/" + n])["/h/" + n], v))
+    out[",".join(order)] = res
+print(json.dumps(out))
+"""
+    tmp = tempfile.mkdtemp(prefix="dds_h_args_sites_")
+    try:
+        open(tmp + "/hsites.py", "w").write("\n".join(mod))
+        open(tmp + "/runner.py", "w").write(runner)
+
+        def go(orders):
+            p = subprocess.run([sys.executable, tmp + "/runner.py", tmp, json.dumps(orders)], capture_output=True, text=True, timeout=600)
+            lines = [l for l in p.stdout.split("\n") if l.startswith("{")]
+            if not lines:
+                raise RuntimeError("call-site history runner failed: " + p.stderr[-400:])
+            return json.loads(lines[-1])
+
+        names = [n for n, _ in sites]
+        fresh = {}
+        for n in names:  # one fresh process per site
+            r = go([[n]])[n][0]
+            fresh[n] = (r[1], r[2])
+        for a, b in itertools.combinations(names, 2):
+            if (fresh[a][0] == fresh[b][0]) != (binding[a] == binding[b]):
+                return {"reproduced": True, "detail": "fresh processes: call sites %s and %s get %s signatures although their bindings are %s" % (a, b, "equal" if fresh[a][0] == fresh[b][0] else "different", "equal" if binding[a] == binding[b] else "different"), "inputs": {"sites": [a, b]}}
+        orders = [list(o) for o in itertools.permutations(names, 3)]
+        # 35 processes of 6 orders each (a new memory store per order; the process-wide state of dds is what is shared)
+        n_checked = 0
+        from concurrent.futures import ThreadPoolExecutor
+
+        groups = [orders[i:i + 6] for i in range(0, len(orders), 6)]
+        with ThreadPoolExecutor(max_workers=8) as ex:
+            outs = list(ex.map(go, groups))
+        for grp, out in zip(groups, outs):
+            for o in grp:
+                res = out[",".join(o)]
+                for n, sig, v in res:
+                    n_checked += 1
+                    if sig != fresh[n][0] or v != ["f"] + list(binding[n]):
+                        return {"reproduced": True, "detail": "call sites analysed in the order %s in one process (after the orders before it in its group): %s (dds.keep('/h/%s', %s)) gets signature %s.. and value %r; a fresh process gives %s.. and f%r returns %r" % (o, n, n, dict(sites)[n], sig[:8], v, fresh[n][0][:8], binding[n], ["f"] + list(binding[n])), "inputs": {"order": o, "site": n}}
+        return {"reproduced": False, "detail": "%d (order, site) pairs: every call site gets the signature and value of its own binding" % n_checked}
+    finally:
+        shutil.rmtree(tmp, ignore_errors=True)
+
